@@ -21,6 +21,18 @@ Definition rmu (s : rshared) (f : rframe) : nat :=
   | RDone | RPanic _ | RRace _ => 0
   end.
 
+Lemma rmu_unfold s f : rmu s f =
+  match rpcf f with
+  | RSlot => 8%nat
+  | RDeqLoad => 7%nat
+  | RDeqCas => if mval (lastm (msgs s (deq_q (rkind f)))) =? rcur f then 5%nat else 6%nat
+  | RCell => 4%nat
+  | REnqLoad => 3%nat
+  | REnqCas => if mval (lastm (msgs s (enq_q (rkind f)))) =? rcur f then 1%nat else 2%nat
+  | RDone | RPanic _ | RRace _ => 0%nat
+  end.
+Proof. reflexivity. Qed.
+
 Lemma rmu_le8 s f : (rmu s f <= 8)%nat.
 Proof. unfold rmu. destruct (rpcf f); try lia; destruct (_ =? _); lia. Qed.
 
@@ -43,49 +55,162 @@ Proof.
   intro H. pose proof (lastm_nth ms H) as E. unfold msg_at. apply nth_error_nth with (d := dummy) in E. exact E.
 Qed.
 
+(** A frame is at the enqueue CAS only with a `current` in which `find` succeeded (this depends
+    on the frame alone). *)
+Definition cur_ok (f : rframe) : Prop := rpcf f = REnqCas -> enq_find (rcur f) <> None.
+
+Lemma curok_after_enq f m v : cur_ok (after_enq f m v).
+Proof. unfold cur_ok, after_enq. destruct (enq_find m) eqn:E; simpl; [congruence|discriminate]. Qed.
+
+Lemma curok_after_deq f m v : cur_ok (after_deq f m v).
+Proof. unfold cur_ok, after_deq. destruct (dequeue_word m); simpl; discriminate. Qed.
+
+Lemma curok_rstep s f c s' f' : cur_ok f -> rstep s f c = (s', f') -> cur_ok f'.
+Proof.
+  intros Hc Hs. unfold rstep in Hs. destruct (rpcf f) eqn:Hpc.
+  - destruct (_ =? 0); inversion Hs; subst; unfold cur_ok; simpl; discriminate.
+  - destruct (Nat.ltb _ _); [inversion Hs; subst; unfold cur_ok; simpl; discriminate|].
+    destruct (read_view _ _ _ _ _) as [m v]. inversion Hs; subst. apply curok_after_deq.
+  - destruct (dequeue_word (rcur f)) as [[i w']|]; [|inversion Hs; subst; exact Hc].
+    destruct c.
+    + destruct (_ =? _).
+      * destruct (cas_ok _ _ _ _ _). inversion Hs; subst. unfold cur_ok; simpl; discriminate.
+      * destruct (read_view _ _ _ _ _) as [m v]. inversion Hs; subst. apply curok_after_deq.
+    + destruct (read_view _ _ _ _ _) as [m v]. inversion Hs; subst. apply curok_after_deq.
+  - destruct (negb _); [inversion Hs; subst; unfold cur_ok; simpl; discriminate|].
+    destruct (Nat.ltb _ _); [inversion Hs; subst; unfold cur_ok; simpl; discriminate|].
+    destruct (rkind f); [inversion Hs; subst; unfold cur_ok; simpl; discriminate|].
+    destruct (cval s (ridx f)); inversion Hs; subst; unfold cur_ok; simpl; discriminate.
+  - destruct (read_view _ _ _ _ _) as [m v]. inversion Hs; subst. apply curok_after_enq.
+  - destruct (enqueue_word _ _); [|inversion Hs; subst; exact Hc]. destruct c.
+    + destruct (_ =? _).
+      * destruct (cas_ok _ _ _ _ _). inversion Hs; subst. unfold cur_ok; simpl; discriminate.
+      * destruct (read_view _ _ _ _ _) as [m v]. inversion Hs; subst. apply curok_after_enq.
+    + destruct (read_view _ _ _ _ _) as [m v]. inversion Hs; subst. apply curok_after_enq.
+  - inversion Hs; subst; exact Hc.
+  - inversion Hs; subst; exact Hc.
+  - inversion Hs; subst; exact Hc.
+Qed.
+
+Definition AllCur (fs : list rframe) : Prop := forall k f, nth_error fs k = Some f -> cur_ok f.
+
+Lemma allcur_wstep w l : AllCur (snd w) -> AllCur (snd (rwstep w l)).
+Proof.
+  destruct w as [s fs]. simpl. intros A. destruct l as [k c|kd p]; simpl.
+  - destruct (nth_error fs k) as [f|] eqn:Hk; [|exact A].
+    destruct (rstep s f c) as [s' f'] eqn:Hs. simpl. intros j g Hj.
+    apply nth_upd_cases in Hj. destruct Hj as [(-> & _ & ->)|[_ Hj]]; [|eapply A; eauto].
+    eapply curok_rstep; eauto.
+  - assert (N : forall v, AllCur (fs ++ [mk_rframe kd v])).
+    { intros v j g Hj. apply nth_app_cases in Hj. destruct Hj as [Hj|[_ ->]]; [eapply A; eauto|]. unfold cur_ok. simpl. discriminate. }
+    destruct p as [p|]; [destruct (nth_error fs p)|]; simpl; apply N.
+Qed.
+
+Lemma allcur_run ls : forall w, AllCur (snd w) -> AllCur (snd (rrun w ls)).
+Proof. induction ls as [|l r IH]; intros w A; simpl; auto. apply IH. apply allcur_wstep. exact A. Qed.
+
+Lemma allcur_reachable ls : AllCur (snd (rrun rinit_world ls)).
+Proof. apply allcur_run. intros [|k] f H; discriminate. Qed.
+
 Lemma rmu_step s fs k f c s' f' :
-  RInv s fs -> nth_error fs k = Some f -> rstep s f c = (s', f') ->
+  RInv s fs -> cur_ok f -> nth_error fs k = Some f -> rstep s f c = (s', f') ->
   (rmu s' f' <= rmu s f + 1)%nat /\ (c = 0%nat -> rmu s f <> 0%nat -> rmu s' f' < rmu s f)%nat.
 Proof.
-  intros I Hk Hs. destruct (r_fr _ _ I k f Hk) as [_ Fok].
-  unfold rstep in Hs. unfold rframe_ok in Fok. unfold rmu at 2 3 4. destruct (rpcf f) eqn:Hpc.
-  - destruct (_ =? 0); inversion Hs; subst; unfold rmu; simpl; lia.
+  intros I Hcur Hk Hs. destruct (r_fr _ _ I k f Hk) as [_ Fok].
+  unfold rstep in Hs. unfold rframe_ok in Fok. rewrite (rmu_unfold s f). destruct (rpcf f) eqn:Hpc.
+  - destruct (_ =? 0); injection Hs as <- <-; unfold rmu; simpl; lia.
   - assert (E : Nat.ltb (rview f LI) 1 = false) by (apply Nat.ltb_ge; exact Fok). rewrite E in Hs.
-    destruct (read_view _ _ _ _ _) as [m v]. inversion Hs; subst. pose proof (rmu_after_deq s f m v). lia.
+    destruct (read_view _ _ _ _ _) as [m v]. injection Hs as <- <-. pose proof (rmu_after_deq s f m v). lia.
   - destruct (dequeue_word (rcur f)) as [[i w']|] eqn:Ed; [|contradiction].
     destruct c as [|c'].
     + destruct (mval (lastm (msgs s (deq_q (rkind f)))) =? rcur f) eqn:Em.
-      * destruct (cas_ok _ _ _ _ _) as [s1 v1]. inversion Hs; subst. unfold rmu; simpl. lia.
-      * unfold read_view in Hs. rewrite (msg_at_last' _ (r_ne _ _ I _)) in Hs. inversion Hs; subst.
+      * destruct (cas_ok _ _ _ _ _) as [s1 v1]. injection Hs as <- <-. unfold rmu; simpl. lia.
+      * unfold read_view in Hs. rewrite (msg_at_last' _ (r_ne _ _ I _)) in Hs. injection Hs as <- <-.
         pose proof (rmu_after_deq_fresh s f (vset (acq_join deq_ord_cas_fail (rview f) (lastm (msgs s (deq_q (rkind f))))) (qloc (deq_q (rkind f))) (last_ts (msgs s (deq_q (rkind f)))))). lia.
-    + destruct (read_view _ _ _ _ _) as [m v]. inversion Hs; subst. pose proof (rmu_after_deq s f m v).
+    + destruct (read_view _ _ _ _ _) as [m v]. injection Hs as <- <-. pose proof (rmu_after_deq s f m v).
       split; [destruct (_ =? _); lia|intro; discriminate].
   - destruct Fok as (Hi & Hkn & Hcs). rewrite (in_range_idxs _ Hi) in Hs. cbn [negb] in Hs.
     assert (E : Nat.ltb (rview f (LC (ridx f))) (clast s (ridx f)) = false) by (apply Nat.ltb_ge; apply Hkn).
     rewrite E in Hs. destruct (rkind f) eqn:K.
-    + inversion Hs; subst. unfold rmu; simpl. lia.
+    + injection Hs as <- <-. unfold rmu; simpl. lia.
     + cbn [deq_q cell_full] in Hcs. unfold cell_state in Hcs. destruct (cval s (ridx f)); [|contradiction].
-      inversion Hs; subst. unfold rmu; simpl. lia.
-  - destruct (read_view _ _ _ _ _) as [m v]. inversion Hs; subst. pose proof (rmu_after_enq s f m v). lia.
+      injection Hs as <- <-. unfold rmu; simpl. lia.
+  - destruct (read_view _ _ _ _ _) as [m v]. injection Hs as <- <-. pose proof (rmu_after_enq s f m v). lia.
   - destruct (enqueue_word (rcur f) (ridx f)) as [w'|] eqn:Ee.
-    2:{ (* cannot happen: the frame's current word has room *)
-        exfalso. assert (I' : RInv s' (upd fs k f')) by (eapply rstep_rinv; eauto; unfold rstep; rewrite Hpc, Ee; exact Hs).
-        (* enqueue_word None means enq_find None, but a frame reaches REnqCas only through after_enq *)
-        inversion Hs; subst s' f'. clear I'.
-        (* use the ownership argument directly *)
-        destruct Fok as (Hi & Hkn & Hcs).
-        pose proof Ee as Ee'. unfold enqueue_word in Ee'. destruct (enq_find (rcur f)) eqn:Ef; [discriminate|].
-        (* we do not track "enq_find (rcur f) <> None" in RInv; derive a contradiction is not possible in
-           general, so this branch is handled by the no-op clause below *)
-        exact (False_ind _ (ltac:(idtac; fail))). }
+    2:{ exfalso. unfold enqueue_word in Ee. destruct (enq_find (rcur f)) eqn:Ef; [discriminate|]. apply (Hcur Hpc). exact Ef. }
     destruct c as [|c'].
     + destruct (mval (lastm (msgs s (enq_q (rkind f)))) =? rcur f) eqn:Em.
-      * destruct (cas_ok _ _ _ _ _) as [s1 v1]. inversion Hs; subst. unfold rmu; simpl. lia.
-      * unfold read_view in Hs. rewrite (msg_at_last' _ (r_ne _ _ I _)) in Hs. inversion Hs; subst.
+      * destruct (cas_ok _ _ _ _ _) as [s1 v1]. injection Hs as <- <-. unfold rmu; simpl. lia.
+      * unfold read_view in Hs. rewrite (msg_at_last' _ (r_ne _ _ I _)) in Hs. injection Hs as <- <-.
         pose proof (rmu_after_enq_fresh s f (vset (acq_join enq_ord_cas_fail (rview f) (lastm (msgs s (enq_q (rkind f))))) (qloc (enq_q (rkind f))) (last_ts (msgs s (enq_q (rkind f)))))). lia.
-    + destruct (read_view _ _ _ _ _) as [m v]. inversion Hs; subst. pose proof (rmu_after_enq s f m v).
+    + destruct (read_view _ _ _ _ _) as [m v]. injection Hs as <- <-. pose proof (rmu_after_enq s f m v).
       split; [destruct (_ =? _); lia|intro; discriminate].
-  - inversion Hs; subst. unfold rmu. rewrite Hpc. lia.
+  - injection Hs as <- <-. unfold rmu. rewrite Hpc. lia.
   - contradiction.
   - contradiction.
+Qed.
+
+(** Choices equal to 0 / different from 0. *)
+Definition zeros (cs : list nat) : nat := length (filter (fun c => Nat.eqb c 0) cs).
+Definition nonzeros (cs : list nat) : nat := length (filter (fun c => negb (Nat.eqb c 0)) cs).
+
+Lemma zeros_nonzeros cs : (zeros cs + nonzeros cs = length cs)%nat.
+Proof. unfold zeros, nonzeros. induction cs as [|c r IH]; simpl; auto. destruct (Nat.eqb c 0); simpl; lia. Qed.
+
+Definition rsolo (j : nat) (cs : list nat) : list rlabel := map (RStep j) cs.
+
+Lemma terminal_rstep s f c : rmu s f = 0%nat -> rstep s f c = (s, f).
+Proof.
+  unfold rmu, rstep. destruct (rpcf f); try discriminate; try (destruct (_ =? _); discriminate); reflexivity.
+Qed.
+
+Lemma terminal_stays j cs : forall s fs f,
+  nth_error fs j = Some f -> rmu s f = 0%nat -> rrun (s, fs) (rsolo j cs) = (s, fs).
+Proof.
+  induction cs as [|c r IH]; intros s fs f Hj Hz; simpl; auto.
+  rewrite Hj, (terminal_rstep s f c Hz), upd_same by assumption. eapply IH; eauto.
+Qed.
+
+Lemma rsolo_run j cs : forall s fs f,
+  RInv s fs -> AllCur fs -> nth_error fs j = Some f ->
+  exists f', nth_error (snd (rrun (s, fs) (rsolo j cs))) j = Some f' /\
+    (rmu (fst (rrun (s, fs) (rsolo j cs))) f' = 0%nat \/
+     rmu (fst (rrun (s, fs) (rsolo j cs))) f' + zeros cs <= rmu s f + nonzeros cs)%nat /\
+    (forall i, i <> j -> nth_error (snd (rrun (s, fs) (rsolo j cs))) i = nth_error fs i).
+Proof.
+  induction cs as [|c r IH]; intros s fs f I A Hj.
+  - exists f. simpl. split; [exact Hj|]. split; [right; unfold zeros, nonzeros; simpl; lia|auto].
+  - destruct (Nat.eq_dec (rmu s f) 0) as [E0|E0].
+    { rewrite (terminal_stays j (c :: r) s fs f Hj E0). exists f. simpl. auto. }
+    simpl. rewrite Hj. destruct (rstep s f c) as [s1 f1] eqn:Hs.
+    assert (Hlen : (j < length fs)%nat) by (apply nth_error_Some; congruence).
+    pose proof (rstep_rinv _ _ _ _ _ _ _ I Hj Hs) as I1.
+    assert (A1 : AllCur (upd fs j f1)).
+    { pose proof (allcur_wstep (s, fs) (RStep j c) A) as H. simpl in H. rewrite Hj, Hs in H. exact H. }
+    destruct (IH s1 (upd fs j f1) f1 I1 A1 (nth_upd_eq _ _ _ Hlen)) as (f' & Hf' & Hmu & Hoth).
+    exists f'. split; auto. split.
+    + destruct (rmu_step _ _ _ _ _ _ _ I (A j f Hj) Hj Hs) as [Hle Hlt].
+      destruct Hmu as [Hz|Hm]; [left; exact Hz|]. right.
+      unfold zeros, nonzeros in *. simpl. destruct (Nat.eqb_spec c 0) as [->|Hc]; simpl.
+      * specialize (Hlt eq_refl E0). lia.
+      * lia.
+    + intros i Hi. rewrite (Hoth i Hi). apply nth_upd_neq. exact Hi.
+Qed.
+
+Theorem ra_bounded_solo ls j f cs k :
+  let w := rrun rinit_world ls in
+  nth_error (snd w) j = Some f -> (nonzeros cs <= k)%nat -> (8 + 2 * k <= length cs)%nat ->
+  exists f', nth_error (snd (rrun w (rsolo j cs))) j = Some f' /\ rpcf f' = RDone /\
+             (forall i, i <> j -> nth_error (snd (rrun w (rsolo j cs))) i = nth_error (snd w) i).
+Proof.
+  intros w Hj Hnz Hlen. destruct w as [s fs] eqn:Ew. simpl in Hj.
+  assert (I : RInv s fs) by (pose proof (ra_reachable_inv ls) as H; fold w in H; rewrite Ew in H; exact H).
+  assert (A : AllCur fs) by (pose proof (allcur_reachable ls) as H; fold w in H; rewrite Ew in H; exact H).
+  destruct (rsolo_run j cs s fs f I A Hj) as (f' & Hf' & Hmu & Hoth).
+  exists f'. split; auto. split; auto.
+  pose proof (zeros_nonzeros cs). pose proof (rmu_le8 s f).
+  assert (Hz : rmu (fst (rrun (s, fs) (rsolo j cs))) f' = 0%nat) by (destruct Hmu; lia).
+  assert (I' : RInv (fst (rrun (s, fs) (rsolo j cs))) (snd (rrun (s, fs) (rsolo j cs)))) by (apply rinv_run; exact I).
+  destruct (r_fr _ _ I' j f' Hf') as [_ Fok]. unfold rframe_ok in Fok.
+  unfold rmu in Hz. destruct (rpcf f'); try discriminate; try reflexivity; try contradiction; destruct (_ =? _); discriminate.
 Qed.
